@@ -9,7 +9,7 @@ fn lbit(dl: &DataLine, i: usize) -> bool {
     (dl.words[i >> 6] >> (i & 63)) & 1 == 1
 }
 
-// @h props=C06,C04:t,C10 tier=quick family=K prof=AB mem=8 timeout=1200 role=bitvector.dataline.rank1
+// @h props=C06,C04:t,C10 tier=quick family=K prof=AB mem=5 timeout=1200 role=bitvector.dataline.rank1
 // @bound all 2^512 lines; position i over 0..=512 (law rank1(0)=0, rank1(i+1)=rank1(i)+[bit i]); checked rank1 over all usize; n_ones/n_zeros
 // @funcs bitvector::DataLine::rank1_unchecked, bitvector::DataLine::rank1, bitvector::DataLine::get, bitvector::DataLine::get_unchecked, bitvector::DataLine::n_ones, bitvector::DataLine::n_zeros
 #[kani::proof]
@@ -40,7 +40,7 @@ fn c06_line_rank1_law() {
     kani::cover!(p == usize::MAX, "largest position");
 }
 
-// @h props=C06,C08 tier=quick family=K mem=8 timeout=1200 role=bitvector.dataline.set_symbol
+// @h props=C06,C08 tier=quick family=K mem=5 timeout=1200 role=bitvector.dataline.set_symbol
 // @bound all lines, all positions < 512, symbol any u64 (only its lowest bit counts)
 // @funcs bitvector::DataLine::set_symbol
 #[kani::proof]
@@ -131,11 +131,11 @@ macro_rules! line_select_words {
         }
     };
 }
-// @h props=C06,C10:t tier=thorough family=K mem=8 timeout=3000 role=bitvector.dataline.select1
+// @h props=C06,C10:t tier=thorough family=K mem=5 timeout=3000 role=bitvector.dataline.select1
 // @bound lines with two fully symbolic words at symbolic positions and the other six each all-ones or all-zeros (symbolic choice); every valid k
 // @funcs bitvector::DataLine::select1_unchecked, utils::select_in_word, bitvector::DataLine::rank1_unchecked
 line_select_words!(c06_line_select1_two_words, select1_unchecked, true);
-// @h props=C06,C10:t tier=thorough family=K mem=8 timeout=3000 role=bitvector.dataline.select0
+// @h props=C06,C10:t tier=thorough family=K mem=5 timeout=3000 role=bitvector.dataline.select0
 // @bound as above for select0
 // @funcs bitvector::DataLine::select0_unchecked, utils::select_in_word, bitvector::DataLine::rank1_unchecked
 line_select_words!(c06_line_select0_two_words, select0_unchecked, false);
